@@ -166,6 +166,7 @@ def run_case(c, d):
     c.set_nontrivial(order >= 2)
     feats = {'cplx': bool(d['cplx'])}
     arg = list(x) if d['cont'] == 'list' else x
+    arg_copy = np.array(x, copy=True)
     try:
         A, P, k = spectrum.aryule(arg, order)
     except Exception as exc:
@@ -184,6 +185,15 @@ def run_case(c, d):
             if lam[0] > 1e-10 * lam[-1]:
                 c.compare('lpc-equals-aryule', np.asarray(a_lpc), np.asarray(A), 1e-9 * max(1.0, (lam[-1] / lam[0]) ** 0.5),
                           dict(feats, fn='lpc'), scale=1 + float(np.max(np.abs(A))))
+    # history: the same container, refilled in place, is a new input (the contract judges the call)
+    if d['cont'] == 'array' and np.asarray(x).dtype.kind in 'fc':
+        x2 = gen.data({'kind': 'noise', 'N': d['N'], 'cplx': bool(d['cplx'])}, c.rng(d, 'x2'))
+        x[:] = x2
+        try:
+            A2, P2, k2 = spectrum.aryule(x, max(1, order - 1))
+        except Exception as exc:
+            c.exception('aryule', exc, dict(feats, fn='aryule'))
+        x[:] = np.asarray(arg_copy)
     # class form
     try:
         p = spectrum.pyule(arg, order, NFFT=max(64, 2 * d['N']))
